@@ -16,12 +16,14 @@ def _confirm(mod, pid):
     import glob
     import io
 
-    files = sorted(glob.glob(os.path.join(core.REPLAY_DIR, pid, "*.json")))[:6]
+    files = sorted(glob.glob(os.path.join(core.REPLAY_DIR, pid, "*.json")))[:8]
+    reproduced, not_reproduced = [], []
     for f in files:
         with open(f) as fh:
             rep = json.load(fh)
         if rep.get("flumine_git_head") is None:
             continue
+        ok = True
         for attempt in (1, 2):
             buf = io.StringIO()
             try:
@@ -31,8 +33,19 @@ def _confirm(mod, pid):
                 print("HARNESS-NONDETERMINISM property=%s replay %s raised %r" % (pid, f, e))
                 return core.EXIT_HARNESS
             if r == 0 and "re-run ./check" not in buf.getvalue() and "nothing to replay" not in buf.getvalue():
-                print("HARNESS-NONDETERMINISM property=%s violation in %s did not reproduce on re-execution %d" % (pid, f, attempt))
-                return core.EXIT_HARNESS
+                ok = False
+                not_reproduced.append((f, attempt))
+                break
+        if ok:
+            reproduced.append(f)
+    if not_reproduced and not reproduced:
+        f, attempt = not_reproduced[0]
+        print("HARNESS-NONDETERMINISM property=%s violation in %s did not reproduce on re-execution %d" % (pid, f, attempt))
+        return core.EXIT_HARNESS
+    for f, attempt in not_reproduced:
+        # other violations of the same run reproduce from a fresh world: the run is believed; this one depends on
+        # what the process executed before it (state shared between framework instances?) and is only noted
+        print("NOTE property=%s violation in %s did not reproduce in isolation (it depends on earlier executions in the same process)" % (pid, f))
     return core.EXIT_VIOLATION
 
 
